@@ -231,9 +231,9 @@ def judge_parsed(n, asns, flags, winner=0):
     from shangrla.core.Audit import Assertion, Audit, Contest, NpEncoder
     names = NAMES[:n]
     js = []
-    for a in asns:
-        if a[0] == "NEB":
-            js.append({"winner": names[a[1]], "loser": names[a[2]], "assertion_type": "WINNER_ONLY", "already_eliminated": ""})
+    for k, a in enumerate(asns):
+        if a[0] == "NEB":  # nothing eliminated: written "" (as RAIRE does) or [] (as make_assertions_from_json also accepts)
+            js.append({"winner": names[a[1]], "loser": names[a[2]], "assertion_type": "WINNER_ONLY", "already_eliminated": "" if k % 2 == 0 else []})
         else:
             other = [c for c in range(n) if c != a[1] and c not in a[2]]
             js.append({"winner": names[a[1]], "loser": names[other[0]], "assertion_type": "IRV_ELIMINATION", "already_eliminated": [names[c] for c in sorted(a[2])]})
